@@ -15,6 +15,17 @@ import (
 // MaxStrLen is the longest string (in bytes) whose length fits the 16-bit length prefix
 const MaxStrLen = 65535
 
+// CheckStrLens returns an error if one of the strings does not fit the 16-bit length prefix.
+// Writers that can return an error call it before StrListEncoder.Encode (which can only panic).
+func CheckStrLens(sl []string) error {
+	for i, s := range sl {
+		if len(s) > MaxStrLen {
+			return fmt.Errorf("value at index %d is too long (%d > %d bytes)", i, len(s), MaxStrLen)
+		}
+	}
+	return nil
+}
+
 // StrListEncoder encodes string slice. Max bytes size for each string is MaxStrLen bytes
 type StrListEncoder struct {
 	buf          []byte
